@@ -31,8 +31,15 @@ fn groups(x: &ReplExec) -> Vec<BTreeSet<u8>> {
             continue;
         }
         let e = x.sim.alive(s).unwrap();
-        if let Some(c) = x.sim.server.world().get::<ChildOf>(e) {
-            if let Some(ps) = (0..n).find(|&p| x.sim.alive(p) == Some(c.parent())) {
+        let rel: Vec<Entity> = [
+            x.sim.server.world().get::<ChildOf>(e).map(|c| c.parent()),
+            x.sim.server.world().get::<OwnedBy>(e).map(|o| o.0),
+        ]
+        .into_iter()
+        .flatten()
+        .collect();
+        for target in rel {
+            if let Some(ps) = (0..n).find(|&p| x.sim.alive(p) == Some(target)) {
                 let (a, b) = (find(&mut parent, s), find(&mut parent, ps));
                 parent[a as usize] = b;
             }
@@ -505,6 +512,31 @@ pub fn cells(tier: Tier) -> Vec<CellPlan> {
         let mut c = cells::three_comps("C10", 1);
         c.oracles = Oracles { c10: true, c02: true, c01: true, ..Default::default() };
         v.push(plan(c, 1, 1.0));
+    }
+    // Two synchronized relationship types that may connect the same pair of entities.
+    for &max in &[22usize, 1200] {
+        let mut c = cells::base(&format!("graph-two-relations-{max}"), "C10");
+        c.cfg.with_child = true;
+        c.cfg.sync_rel = true;
+        c.cfg.with_owner = true;
+        c.cfg.clients = vec![max];
+        c.init = vec![Op::Spawn(0, cells::AB), Op::Spawn(1, cells::AB), Op::Spawn(2, cells::AB)];
+        c.alphabet = vec![
+            Op::Nop,
+            Op::SetParent(1, 0),
+            Op::SetOwner(1, 0),
+            Op::ClearParent(1),
+            Op::ClearOwner(1),
+            Op::SetOwner(2, 1),
+            Op::SetParent(2, 0),
+            Op::ClearOwner(2),
+        ];
+        c.rounds = if q { 3 } else { 4 };
+        c.tick_choice = false;
+        c.env = Env::perfect();
+        c.split_stage = true;
+        c.oracles = Oracles { c10: true, c02: true, ..Default::default() };
+        v.push(plan(c, 0, 2.0));
     }
     // The relationship graph across a server restart: relations that existed before the stop
     // still bind their entities together in the next session.
